@@ -85,6 +85,15 @@ class Opaque(T):
         self.tag = tag
 
 
+class Rec(T):
+    """Reference to a record living in the symbolic map `MapOf(elem)` held in a ghost field (the *record heap*
+    of that class): usable as element type of ListOf (a symbolic-length list of objects with identity) and as
+    a parameter type (an arbitrary existing record)."""
+
+    def __init__(self, elem):
+        self.elem = elem
+
+
 class Callback(T):
     """Opaque callable; `effect(ghost, *args)` is ghost code run at each call;
     `returns` a type for the result (default None); `raises` exception classes
@@ -130,11 +139,14 @@ class EmptyDict(T):
 
 
 class MapOf(T):
-    """dict from symbolic int keys to records of model `elem` (struct of arrays)."""
+    """dict from symbolic int keys to records of model `elem` (struct of arrays).
+    `key=Opaque(tag)`: the keys are objects known only by identity (the symbolic side is unchanged -- an opaque
+    value *is* an integer id --; a native rebuild keys the dict by the same tokens that stand for Opaque(tag) values)."""
 
-    def __init__(self, elem, default_factory=False):
+    def __init__(self, elem, default_factory=False, key=None):
         self.elem = elem
         self.default_factory = default_factory
+        self.key = key
 
 
 class ExtT(T):
@@ -209,6 +221,7 @@ class Lemma:
         self.prop = kw.pop('prop', None)
         self.modifies = kw.pop('modifies', ['*'])
         self.raises = {}
+        self.native_setup = kw.pop('native_setup', None)
         self.extra = kw
         self.module = None
 
@@ -271,6 +284,12 @@ def same(a, b):
     return _ORIGIN.get(id(a), a) is _ORIGIN.get(id(b), b)
 
 
+def forall_in(seq, f):
+    """f holds of every element of the sequence (symbolically quantified over the element value, `e in seq`, rather
+    than over the index: cheap for append / freshness reasoning)"""
+    return all(f(x) for x in seq)
+
+
 def implies(a, b):
     return (not a) or bool(b)
 
@@ -309,6 +328,11 @@ def mget(m, k, name):
         return 0
     v = getattr(m[k], name)
     return v.is_set() if hasattr(v, 'is_set') else v
+
+
+def rec_live(x):
+    """is the record reference x an allocated object of its record heap (natively: every real object is)"""
+    return True
 
 
 NATIVE_UF = {}
